@@ -137,3 +137,24 @@ Definition kpc_rows (I : path_inst) (ignore : list edge) : list row :=
 
 Definition encode_kpc (I : path_inst) (ignore : list edge) : milp :=
   {| cols := base_cols I; rows := base_rows I ++ kpc_rows I ignore; obj := []; maximize := false |}.
+
+(* ---- get_solution_paths for one layer: follow the first successor (in adjacency order = order of
+   the edge list restricted to the tail) whose value is 1; [] when no edge leaves the source;
+   source and sink stripped.  None = the Python loop would not terminate within |V|+1 steps. *)
+Definition x_one (x : edge -> Z) (e : edge) : bool := (x e =? 1)%Z.
+Definition out_edges (E : list edge) (v : node) : list edge := filter (fun e => (fst e =? v)%N) E.
+Fixpoint follow_ones (E : list edge) (x : edge -> Z) (t : node) (fuel : nat) (v : node) : option (list node) :=
+  match fuel with
+  | O => None
+  | S f =>
+      if (v =? t)%N then Some []
+      else match find (x_one x) (out_edges E v) with
+           | None => None
+           | Some e => option_map (cons (snd e)) (follow_ones E x t f (snd e))
+           end
+  end.
+Definition solution_path (E : list edge) (x : edge -> Z) (s t : node) (fuel : nat) : option (list node) :=
+  match find (x_one x) (out_edges E s) with
+  | None => Some []
+  | Some _ => option_map (@removelast node) (follow_ones E x t fuel s)
+  end.
